@@ -217,7 +217,7 @@ func zzC06CreateMode(mode int) {
 	}
 	strategy := strategies[verifrt.Choice(len(strategies), "strategy")]
 	amount := verifrt.I64("send")
-	verifrt.Assume(verifrt.And(amount >= 10000, amount <= 850000))
+	verifrt.Assume(verifrt.And(amount >= 10000, amount <= 1150000))
 	out := wire.NewTxOut(amount, []byte{0x00, 0x14, 7, 7, 7, 7, 7, 7, 7, 7, 7, 7, 7, 7, 7, 7, 7, 7, 7, 7, 7, 7})
 
 	var selected []wire.OutPoint
@@ -228,9 +228,15 @@ func zzC06CreateMode(mode int) {
 	if full {
 		picks = []int{0, 1, 2, 3, 4, 5, 6, 7, 8, 9}
 	}
+	picks = append(picks, -1)
 	pick := picks[verifrt.Choice(len(picks), "explicit-input")]
 	if pick > 0 {
 		selected = []wire.OutPoint{w.coins[pick-1].op}
+	}
+	if pick == -1 {
+		// the same (eligible) coin named twice
+		selected = []wire.OutPoint{w.coins[0].op, w.coins[0].op}
+		verifrt.Reach("explicit-duplicate")
 	}
 	atx, err := w.w.txToOutputs([]*wire.TxOut{out}, &s84, nil, 0, minconf, 2000, strategy, false, selected, nil)
 	if pick > 0 {
